@@ -339,6 +339,11 @@ func newFakeLog(t *fakeTree, p planParams) *fakeLog {
 }
 
 func (f *fakeLog) writeEntries(sb *strings.Builder, from, to int64) { // [from, to]
+	size := 16
+	for i := from; i <= to; i++ {
+		size += len(f.tree.entries[i].leafB64) + len(f.tree.entries[i].extraB64) + 40
+	}
+	sb.Grow(size)
 	sb.WriteString(`{"entries":[`)
 	for i := from; i <= to; i++ {
 		if i > from {
